@@ -215,6 +215,25 @@ def sat_jobs(out, tier):
                         ('every_theory_popped_once', 'xt_th_pops == self->theories.n')],
                assigns='__exc, xt_th_pops, self->assigns, self->level, self->reason, self->trail, self->trail_lim, self->decisions'))
 
+    # check(lits): the trial assumptions are all undone - the decision level on return is the one found on entry when the literals
+    # are compatible (true), and never above it.  assume / propagate may backjump (assumed: they never leave the level higher than
+    # one above / at the level they found), pop closes exactly one level (proved above).
+    ASSUME, PROP, POP = 'smt_sat_core_assume__lit', 'smt_sat_core_propagate', 'smt_sat_core_pop'
+    LV = 'self->trail_lim.n'
+    stubs2 = {ASSUME: Contract(requires=['1'], ensures=[('at_most_one_level_opened', '%s <= %s + 1' % (LV, OLD(LV)))], assigns='self->trail_lim'),
+              PROP: Contract(requires=['1'], ensures=[('no_level_opened', '%s <= %s' % (LV, OLD(LV)))], assigns='self->trail_lim'),
+              POP: Contract(requires=['%s >= 1' % LV], ensures=[('level_closed', '%s == %s - 1' % (LV, OLD(LV)))], assigns='self->trail_lim')}
+    out.append(Job('sat.check_lits', 'smt_sat_core_check__vec_lit', tus=TUS_S,
+                   contract=Contract(requires=[FRESH, '__exc == 0 && %s <= 2 && lits.n <= 2' % LV],
+                                     ensures=[('noexcept', '__exc == 0'),
+                                              ('trial_assumptions_undone', '%s ? %s == %s : %s <= %s' % (R, LV, OLD(LV), LV, OLD(LV))),
+                                              ('WITNESS_compatible_literals_are_reachable', '!(%s && lits.n == 2)' % R)],
+                                     assigns='__exc, self->trail_lim'),
+                   defines=d, unwind=6, model_unwind=6, spec_headers=[], callee_contracts=stubs2, replace=list(stubs2), exceptions=True,
+                   caps=dict(CAPS_S, vec_U=5), abstract_fields={'smt::sat_core': ['trail_lim'], 'smt::constr': [], 'smt::sat_value_listener': [], 'smt::theory': []}, timeout=1200,
+                   force_types=['std::vector<smt::lit>', 'std::vector<unsigned long>'],
+                   bounded='<= 2 trial literals, <= 2 open levels on entry; assume/propagate/pop by contract'))
+
 
 # what the evidence file says is NOT decided by this module, and what it assumes
 INFO = {'not_under_contract': ['rdl_theory undo layers', 'ov_theory and lra_theory tableau/pivot state', 'solver / core level push-pop (flaws, resolvers)', 'the re-propagation loop of idl_theory::propagate(from,to,dist) over registered undecided constraints'], 'assumptions': ['the hop-count invariant of the predecessor matrix (proved for the edge step under C10) is a precondition of the propagate(const lit&) job', 'idl value listeners and lra propagation callbacks do not touch the logged state']}
